@@ -654,7 +654,17 @@ class Path:
         for a in axioms:
             s.add(a)
         s.add(neg)
-        r = guarded_check(s, (timeout_ms or self.ctx.timeout_ms) / 1000.0 + 5)
+        budget = (timeout_ms or self.ctx.timeout_ms)
+        first = min(budget, 20000)
+        s.set("timeout", first)
+        r = guarded_check(s, first / 1000.0 + 5)
+        if r == z3.unknown:
+            # z3's search is sensitive to scheduling: retry in fresh solvers with other seeds before giving up
+            r, fresh_model = _retry_fresh(self.ctx.side + self.pc + list(axioms) + [neg], budget)
+            if r == z3.sat:
+                s.pop()
+                STATS["solver_s"] += time.time() - t0
+                return "sat", fresh_model, True
         m = s.model() if r == z3.sat else None
         if r == z3.sat and prefer:
             for p_ in prefer:
@@ -693,7 +703,14 @@ class Path:
                     seen.add(nm)
                     s.add(defs[nm][2])
                     todo.append(defs[nm][1])
-        r = guarded_check(s, timeout_ms / 1000.0 + 5)
+        first = min(timeout_ms, 20000)
+        s.set("timeout", first)
+        r = guarded_check(s, first / 1000.0 + 5)
+        if r == z3.unknown and timeout_ms > 5000:
+            r, fm = _retry_fresh(s.assertions(), timeout_ms)
+            if r == z3.sat:
+                STATS["solver_s"] += time.time() - t0
+                return "sat", fm, True
         m = s.model() if r == z3.sat else None
         if r == z3.sat and prefer:
             for p_ in prefer:
@@ -823,6 +840,21 @@ class Explorer:
 # --------------------------------------------------------------------------------------
 # models -> python values
 # --------------------------------------------------------------------------------------
+
+def _retry_fresh(assertions, budget_ms):
+    """re-decide a query that came back unknown: fresh solver objects, different random seeds, growing timeouts"""
+    assertions = list(assertions)
+    for k, (seed, tmo) in enumerate(((7, min(budget_ms, 20000)), (23, min(budget_ms, 40000)), (101, budget_ms))):
+        s2 = z3.Solver()
+        s2.set("timeout", int(tmo))
+        s2.set("random_seed", seed)
+        for a in assertions:
+            s2.add(a)
+        r = guarded_check(s2, tmo / 1000.0 + 5)
+        if r != z3.unknown:
+            return r, (s2.model() if r == z3.sat else None)
+    return z3.unknown, None
+
 
 def _const_names(e):
     """names of the uninterpreted constants occurring in a z3 term"""
